@@ -62,6 +62,9 @@ MIXED = {
  "C10": "Proved by pyvc+z3: executor.runner.runner.run - the callable is invoked once, first, with every static argument and every upstream value (Memory.provide of the declared source) in its declared "
         "position / under its declared name and nothing else; one output: the result is stored under it; several outputs: the j-th yielded value is stored under the j-th declared output in key order, "
         "one store per output, and a count mismatch raises (task failure); low.func.ensure (84 VCs, loop invariants for every number of arguments / outputs). graph2job/node2task stay bounded. ",
+ "C12": "Proved by pyvc+z3/cvc5: what ONE node contributes to the serialised form - graph.nodes.Output.serialise (default output as the parent's name, any other as the pair; the two shapes are "
+        "distinguishable), Node.serialise (every output in order in a list of its own, every input under its own name as its serialised reference, no input invented, payload kept iff present), "
+        "Node.get_output (the decoder's lookup returns exactly (node, name) or raises) - 49 VCs. The whole-graph round trip (export.deserialise's topological rebuild, JSON, Cascade file) stays bounded. ",
  "C16": "Proved by pyvc+z3: views.dependants and views.param_source (the two views through which precompute, the controller State and the runner read the edge list): consumers / inputs "
         "recorded exactly as the edges state, ill-formed edge rejected (45 VCs, loop invariants for every edge count). decompose/enrich/nearest_common_descendant stay bounded. ",
  "C19": "Proved by pyvc+z3: TaskBuilder.with_values, JobBuilder.with_node/with_edge/get_edge_errors against persistence and exact-error-list contracts (152 VCs). ",
